@@ -437,6 +437,16 @@ func cmdCheck(args []string) int {
 			continue
 		}
 		gens = append(gens, g)
+		{
+			var olds []string
+			for o := range g.renames {
+				olds = append(olds, o)
+			}
+			sort.Strings(olds)
+			for _, o := range olds {
+				fmt.Printf("NOTE: %s: `%s` in its contracts is read as `%s` (the variable was renamed in the code)\n", g.key, o, g.renames[o])
+			}
+		}
 		for k := range g.freeUsed {
 			freeUsed[k] = true
 		}
